@@ -203,6 +203,15 @@ func runConnCase(c connCase) string {
 			r.pc.mu.Lock()
 			r.pc.wfail = true
 			r.pc.mu.Unlock()
+		case 's': // the client stops reading; s<n>: n more bytes fit into the socket buffers
+			n, _ := strconv.Atoi(op[1:])
+			r.pc.stallWrites(n)
+		case 'u': // the client reads again
+			r.pc.resumeWrites()
+			if !waitQuiet(r) {
+				r.log.add("!HANG")
+				atomic.StoreInt32(&hangFlag, 1)
+			}
 		case 'e', 'r', 'x':
 			if op[0] == 'x' {
 				r.pc.mu.Lock()
